@@ -2,10 +2,10 @@ package main
 
 import (
 	"encoding/json"
+	"fmt"
 	"go/ast"
 	"go/token"
 	"go/types"
-	"fmt"
 	"os"
 	"path/filepath"
 	"sort"
@@ -160,7 +160,9 @@ type fset struct {
 	nRaw map[string]int    // "Kind" -> distinct sink sites reached by the wire itself
 }
 
-func newFset() *fset { return &fset{lab: map[string]flabel{}, nAll: map[string]int{}, nRaw: map[string]int{}} }
+func newFset() *fset {
+	return &fset{lab: map[string]flabel{}, nAll: map[string]int{}, nRaw: map[string]int{}}
+}
 
 func fsetOf(f map[string]flabel) *fset {
 	out := newFset()
